@@ -83,8 +83,13 @@ impl futures::io::AsyncRead for Script {
         }
     }
 }
-fn end_entry(log: &Rc<RefCell<Vec<J>>>, v: &str) {
-    log.borrow_mut().push(json!({"t": "end", "ret": v, "req": 0, "k": 0}));
+fn end_entry(log: &Rc<RefCell<Vec<J>>>, v: &str) { end_entry_cls(log, v, "") }
+/// `cls`: the class of a terminal error (C08: the asynchronous reader ends with an error of the same class as the blocking one)
+fn end_entry_cls(log: &Rc<RefCell<Vec<J>>>, v: &str, cls: &str) {
+    log.borrow_mut().push(json!({"t": "end", "ret": v, "req": 0, "k": 0, "cls": cls}));
+}
+fn err_class(e: &DltParseError) -> &'static str {
+    match e { DltParseError::IncompleteParse { .. } => "incomplete", DltParseError::ParsingHickup(_) => "hickup", DltParseError::Unrecoverable(_) => "unrecoverable" }
 }
 fn class(e: &DltParseError) -> &'static str {
     match e {
@@ -116,7 +121,7 @@ pub fn slice_session(data: &[u8], sh: bool, sched: &[Resp], is_async: bool, cap:
                 match rd.next_message_slice() {
                     Ok(s) if s.is_empty() => { end_entry(&log2, "eos"); break; }
                     Ok(s) => deliver(s),
-                    Err(_) => { end_entry(&log2, "err"); break; }
+                    Err(e) => { end_entry_cls(&log2, "err", err_class(&e)); break; }
                 }
             }
         } else {
@@ -126,7 +131,7 @@ pub fn slice_session(data: &[u8], sh: bool, sched: &[Resp], is_async: bool, cap:
                     match rd.next_message_slice().await {
                         Ok(s) if s.is_empty() => { end_entry(&log2, "eos"); break; }
                         Ok(s) => deliver(s),
-                        Err(_) => { end_entry(&log2, "err"); break; }
+                        Err(e) => { end_entry_cls(&log2, "err", err_class(&e)); break; }
                     }
                 }
             });
@@ -483,7 +488,8 @@ pub fn replay(mode: &str, cases: &[J], out: &mut Out) {
             out.calls += 2;
             let outs = |l: &Vec<J>| -> Vec<u64> { l.iter().filter(|x| x["t"] == "out").map(|x| x["k"].as_u64().unwrap()).collect() };
             let end = |l: &Vec<J>| -> String { l.iter().find(|x| x["t"] == "end").map(|x| x["ret"].as_str().unwrap().to_string()).unwrap_or("none".into()) };
-            if outs(&bl) != outs(&al) || end(&bl) != end(&al) || end(&al) == "panic" || end(&al) == "none" {
+            let cls = |l: &Vec<J>| -> String { l.iter().find(|x| x["t"] == "end").and_then(|x| x["cls"].as_str()).unwrap_or("").to_string() };
+            if outs(&bl) != outs(&al) || end(&bl) != end(&al) || cls(&bl) != cls(&al) || end(&al) == "panic" || end(&al) == "none" {
                 out.mismatches.push(json!({"what": "async vs blocking", "expected_class": end(&bl), "observed_class": end(&al), "case": case,
                     "expected": {"out": outs(&bl), "end": end(&bl)}, "observed": {"out": outs(&al), "end": end(&al)}}));
             }
